@@ -83,13 +83,31 @@ pub fn log_equals(o: &Out) -> bool {
 
 pub fn any_regs() -> Regs {
   let r = Regs { a: kani::any(), f: kani::any::<u8>() & 0xf0, b: kani::any(), c: kani::any(), d: kani::any(), e: kani::any(), h: kani::any(), l: kani::any(), sp: kani::any(), pc: kani::any() };
-  // the whole instruction lies inside one executable region (the longest one ends at 0xfffe)
-  kani::assume(r.pc <= 0xfffc);
+  // the whole instruction lies inside one executable region: ROM, work RAM or high RAM
+  kani::assume(r.pc <= 0x7ffc || (r.pc >= 0xc000 && r.pc <= 0xdffc) || (r.pc >= 0xff80 && r.pc <= 0xfffc));
   r
 }
 pub fn to_registers(r: &Regs, cycles: u32) -> Registers {
   Registers { af: ((r.a as u32) << 8) | r.f as u32, bc: ((r.b as u32) << 8) | r.c as u32, de: ((r.d as u32) << 8) | r.e as u32,
               hl: ((r.h as u32) << 8) | r.l as u32, sp: r.sp as u32, ip: r.pc as u32, cycles }
+}
+
+/// Second-attempt constraint for counterexample extraction (`--cfg verif_realizable`): every bus address of the
+/// instruction is backed by memory the native replay can poke (ROM, VRAM, cartridge RAM, work RAM, OAM, high RAM)
+/// and does not overlap the instruction bytes, so that the counterexample can be rebuilt on a real memory image.
+pub fn realizable(o: &Out, pc: u16) -> bool {
+  let mut ok = true;
+  let mut i = 0;
+  while i < sm83ref::MAX_EV {
+    if i < o.nev {
+      let a = o.ev_addr[i];
+      let backed = a <= 0xdfff || (a >= 0xfe00 && a <= 0xfe9f) || (a >= 0xff80 && a <= 0xfffe);
+      let on_code = a.wrapping_sub(pc) < 4;
+      if !backed || on_code { ok = false; }
+    }
+    i += 1;
+  }
+  ok
 }
 
 pub struct Run { pub regs: Registers, pub status: u8, pub brk: bool, pub returned: bool, pub bus_ok: bool, pub replayable: bool }
